@@ -141,12 +141,31 @@ def evaluate_quic(spec):
     return {"sig": sig, "detail": detail, "nontrivial": bool(want_data) and n_added >= 2, "labels": ["quic", "suite:%04x" % cs["suite"]], "evals": 2}
 
 
+def half_close_strategy(tier):
+    """extension beyond the literal quantifier ("data after an alert" is not claimed by C01): a TLS 1.3 half-close - one side sends
+    close_notify, the peer keeps sending.  TLExport ignores TLS 1.3 alerts, so the relation -a vs. no -a must hold here too"""
+    from hypothesis import strategies as st
+    combos = [c for c in tlsref.all_combos() if c[1] == tlsref.TLS13]
+
+    def add(sc, who, k):
+        cs = sc["conns"][0]
+        h = [x for x in cs["history"] if x[0] in (0, 1)]
+        k = min(k, len(h))
+        other = 1 - who
+        cs["history"] = h[:k] + [[3 + who, 0, 0]] + [[other, ln, p] for _, ln, p in h[k:]] + [[other, 9, 0]]
+        return sc
+    return st.builds(add, strategies.single_tls_scenario(combos=combos, max_records=6, max_len=300,
+                                                         delivery=strategies.tcp_delivery(modes=("rec", "flight", "cuts"), wrap=False)),
+                     st.integers(0, 1), st.integers(0, 6))
+
+
 def stages(tier):
     quick = tier == "quick"
     deliv = strategies.tcp_delivery(modes=("rec", "flight", "cuts"), wrap=False)
     return [
         Stage("tls", evaluate_tls, strategy=lambda t: strategies.single_tls_scenario(max_records=8, max_len=600, delivery=deliv),
               examples=500 if quick else 12000),
+        Stage("tls13-half-close", evaluate_tls, strategy=half_close_strategy, examples=200 if quick else 4000),
         Stage("quic", evaluate_quic, strategy=lambda t: strategies.single_quic_scenario(max_steps=8), examples=700 if quick else 12000),
     ]
 
@@ -157,7 +176,9 @@ RULE = ("C01 and C02 scenarios are exported without and with -a.  TLS: the paylo
         "QUIC: each input datagram that carried CRYPTO or STREAM data maps to exactly one output datagram of the same time and direction whose "
         "payload is that data in frame order (stream data in order, surrounded only by CRYPTO data of the same datagram).  Non-trivial: both runs "
         "export data and -a adds >= 2 packets / datagrams with CRYPTO data")
-ASSUMPTIONS = ["packets are compared by payload (a record re-split over k parts yields k packets in both runs alike)",
+ASSUMPTIONS = ["stage tls13-half-close goes beyond the quantifier (data after an alert is not claimed by C01): it only requires the -a / no -a relation, "
+               "which the unchanged code satisfies because TLS 1.3 alerts are ignored in both modes",
+               "packets are compared by payload (a record re-split over k parts yields k packets in both runs alike)",
                "TLS 1.3 handshake messages travel in encrypted records and are not exported as metadata (nothing in the statement requires it)"]
 
 CHECK = Check(PID, "exploration", RULE, ASSUMPTIONS, stages)
